@@ -5,17 +5,18 @@ set -u
 cd "$(dirname "$0")"
 export GOFLAGS=-mod=mod GOPROXY=off GOSUMDB=off GOWORK=off GOTOOLCHAIN=local
 mkdir -p build evidence replays
-python3 tools/genmain.py
+python3 tools/genlake.py
 mods=$(python3 - <<'PY'
 import json,glob
 ms=[]
 for f in sorted(glob.glob('checks/C*.json')):
-    for m in json.load(open(f)).get('lean_modules',[]):
+    c=json.load(open(f))
+    for m in c.get('lean_modules',[])+['zdrv-'+t for t in c.get('drvs',[c['drv']] if c.get('drv') else [])]:
         if m not in ms: ms.append(m)
 print(' '.join(ms))
 PY
 )
-(cd lean && lake build $mods zdrv 2>&1 | grep -v '^trace' | tail -15)
+(cd lean && lake build $mods 2>&1 | grep -v '^trace' | tail -15)
 rc=0
 # warm the Go build cache: compile every harness once (hooks injected through -overlay by ./check itself)
 python3 - <<'PY' || rc=1
